@@ -6,6 +6,7 @@ import (
 	"fmt"
 	"go/token"
 	"go/types"
+	"sort"
 	"strings"
 
 	"golang.org/x/tools/go/ssa"
@@ -151,6 +152,167 @@ func checkC18(c *Ctx, r *Result, tier string) {
 		})
 	}
 	r.Floor("R18a", nAdv, 3)
+
+	// ---- R18d: every rune a line-counting loop examines is tested for being a newline ------------
+	nScan := 0
+	for _, fn := range lexFuncs {
+		key := c.FuncKey(fn)
+		ord := newOrdinals()
+		allInstrs(fn, func(in ssa.Instruction) {
+			cmp, ok := in.(*ssa.BinOp)
+			if !ok || cmp.Op != token.EQL || !inLoop(cmp.Block()) {
+				return
+			}
+			var x ssa.Value
+			if k, isC := constInt(cmp.Y); isC && k == 10 {
+				x = cmp.X
+			} else if k, isC := constInt(cmp.X); isC && k == 10 {
+				x = cmp.Y
+			}
+			if x == nil {
+				return
+			}
+			// the comparison controls a line advance
+			controls := false
+			for _, ref := range *cmp.Referrers() {
+				if br, isIf := ref.(*ssa.If); isIf {
+					for _, y := range br.Block().Succs[0].Instrs {
+						if bo, isBO := y.(*ssa.BinOp); isBO && bo.Op == token.ADD && inClass(bo.X, fLine, map[ssa.Value]bool{}) {
+							controls = true
+						}
+					}
+				}
+			}
+			if !controls {
+				return
+			}
+			nScan++
+			site := ord.key(key, "newline-test", accessPath(x))
+			pos := c.Pos(c.InstrPos(in))
+			// the scanned variable: the loop-header phi x is, or flows into
+			var H *ssa.Phi
+			if p, isPhi := x.(*ssa.Phi); isPhi && isLoopHeaderPhi(p) {
+				H = p
+			} else {
+				for _, b := range fn.Blocks {
+					for _, y := range b.Instrs {
+						p, isPhi := y.(*ssa.Phi)
+						if !isPhi {
+							break
+						}
+						if !isLoopHeaderPhi(p) || !sccOf(cmp.Block())[b] {
+							continue
+						}
+						for _, e := range p.Edges {
+							if e == x {
+								H = p
+							}
+						}
+					}
+				}
+			}
+			if H == nil {
+				r.Instance("R18d", site, pos, "ok", "the tested rune is not carried around the loop (each rune is read and tested in the same iteration)", true)
+				return
+			}
+			if ssa.Value(H) == x {
+				r.Instance("R18d", site, pos, "ok", "the newline test is applied to the loop's scanned variable itself: every rune the loop examines is tested", true)
+				return
+			}
+			// the test is on a value flowing into the scanned variable: every other inflow must be tested too
+			var untested []string
+			for i, e := range H.Edges {
+				if e == x {
+					continue
+				}
+				tested := false
+				if refs := e.Referrers(); refs != nil {
+					for _, ref := range *refs {
+						if bo, isBO := ref.(*ssa.BinOp); isBO && bo.Op == token.EQL {
+							if k, isC := constInt(bo.Y); isC && k == 10 {
+								tested = true
+							}
+						}
+					}
+				}
+				if _, isConst := e.(*ssa.Const); isConst {
+					tested = true
+				}
+				if !tested {
+					untested = append(untested, fmt.Sprintf("%s (from block %d)", accessPath(e), H.Block().Preds[i].Index))
+				}
+			}
+			if len(untested) == 0 {
+				r.Instance("R18d", site, pos, "ok", "every value flowing into the scanned variable is tested for newline", true)
+				return
+			}
+			r.Instance("R18d", site, pos, "finding", "a rune enters the scan loop untested: "+strings.Join(untested, ", "), true)
+			r.Report(Finding{Rule: "R18d", Site: site, Pos: pos,
+				Msg: fmt.Sprintf("%s: the newline test that advances the line counter is applied to the rune read inside the loop only; the rune the loop is entered with (%s) is never tested — a line break in that position is not counted, and every later token is reported one line too low", key, strings.Join(untested, ", "))})
+		})
+	}
+	r.Floor("R18d", nScan, 2)
+
+	// ---- R18e: the parser separates statements by token lines, not by layout counters ------------
+	// PrefixNewlines is counted by the white-space skipper only; the comment lexers consume line
+	// breaks without counting them there. A decision of the parser based on it changes with
+	// comments. Who-may-read rule: on the path of Parse the field is copied, never computed with.
+	fPrefix := c.Field("parser", "LexToken", "PrefixNewlines")
+	parseFn := c.Func("parser", "ParseWithRuntime")
+	if fPrefix == nil || parseFn == nil {
+		r.Undecide("R18e: LexToken.PrefixNewlines / ParseWithRuntime not found")
+	} else {
+		reach := c.Reachable([]*ssa.Function{parseFn}, func(f *ssa.Function) bool { return c.PkgOf(f) != "parser" })
+		nLine := 0
+		var pfuncs []*ssa.Function
+		pfuncs = append(pfuncs, reach.Order...)
+		sort.Slice(pfuncs, func(i, j int) bool { return c.FuncKey(pfuncs[i]) < c.FuncKey(pfuncs[j]) })
+		fLlineTok := c.Field("parser", "LexToken", "Lline")
+		for _, fn := range pfuncs {
+			key := c.FuncKey(fn)
+			ord := newOrdinals()
+			allInstrs(fn, func(in ssa.Instruction) {
+				var f *types.Var
+				var val ssa.Value
+				switch x := in.(type) {
+				case *ssa.UnOp:
+					if fa, ok := x.X.(*ssa.FieldAddr); ok && x.Op == token.MUL {
+						f, val = fieldVar(fa), x
+					}
+				case *ssa.Field:
+					f, val = fieldVar(x), x
+				}
+				if f == nil || val == nil {
+					return
+				}
+				computes := false
+				if refs := val.Referrers(); refs != nil {
+					for _, ref := range *refs {
+						if _, isBO := ref.(*ssa.BinOp); isBO {
+							computes = true
+						}
+					}
+				}
+				if !computes {
+					return
+				}
+				if f == fLlineTok {
+					nLine++
+					return
+				}
+				if f != fPrefix {
+					return
+				}
+				site := ord.key(key, "layout-decision", "PrefixNewlines")
+				pos := c.Pos(c.InstrPos(in))
+				r.Instance("R18e", site, pos, "finding", "parser decision on PrefixNewlines", true)
+				r.Report(Finding{Rule: "R18e", Site: site, Pos: pos, Path: reach.PathTo(c, fn),
+					Msg: key + ": a decision on the parse path is computed from LexToken.PrefixNewlines. That counter only knows line breaks skipped as white space — a line break consumed by a `#` comment or inside a /* */ comment is not in it — so statement separation changes when a comment is added (`return # note` followed by a new line takes the next statement as its value)"})
+			})
+		}
+		r.Instance("R18e", "parser#line-decisions", "", "ok", fmt.Sprintf("%d line comparisons on the parse path read Lline; none reads PrefixNewlines", nLine), true)
+		r.Floor("R18e-line-decisions", nLine, 4)
+	}
 
 	// ---- R18b emitters ---------------------------------------------------------------------------
 	tok := c.NamedType("parser", "LexToken")
